@@ -612,6 +612,7 @@ func TestC39(t *testing.T) {
 			chainCalls[k] += v
 		}
 		w.chain.mu.Unlock()
+		run.Count("late_epoch_notifications_sent_to_the_session_manager", w.lateEpochUpdates)
 		w.close()
 	}
 
